@@ -478,6 +478,50 @@ func (g *ssGen) chained() *shpCase {
 	return c
 }
 
+// three levels of contextual lookups with length-changing leaves: every fixStackInsert /
+// fixStackMerge has to repair two or three stack entries at once.
+func (g *ssGen) deepNest() *shpCase {
+	r := g.r
+	fl := gtab.LookupFlags(Pick(r, []int{0, 0, 8}))
+	all := coverage.Set{ssA: true, ssB: true, ssC: true, ssD: true}
+	acts := func(n, lo, hi int) []gtab.SeqLookup {
+		var a []gtab.SeqLookup
+		for i, m := 0, r.Range(1, 3); i < m; i++ {
+			a = append(a, gtab.SeqLookup{SequenceIndex: uint16(r.Intn(n)), LookupListIndex: gtab.LookupIndex(r.Range(lo, hi))})
+		}
+		return a
+	}
+	n0 := r.Range(2, 4)
+	in0 := []coverage.Set{{ssA: true}}
+	for i := 1; i < n0; i++ {
+		in0 = append(in0, all)
+	}
+	n1 := r.Range(1, 2)
+	var in1 []glyph.ID
+	for i := 1; i < n1; i++ {
+		in1 = append(in1, glyph.ID(Pick(r, []int{ssA, ssB, ssC})))
+	}
+	g.c.Stat("obligation: deep nesting", fmt.Sprintf("inputs %d/%d, flags %#x", n0, n1, int(fl)))
+	ll := gtab.LookupList{
+		ssLookup(5, fl, 0, &gtab.SeqContext3{Input: in0, Actions: acts(n0, 1, 2)}),
+		ssLookup(5, fl, 0, &gtab.SeqContext1{Cov: coverage.Table{ssA: 0, ssB: 1, ssC: 2}, Rules: [][]*gtab.SeqRule{
+			{{Input: in1, Actions: acts(n1, 2, 5)}}, {{Input: in1, Actions: acts(n1, 2, 5)}}, {{Actions: acts(1, 3, 5)}}}}),
+		ssLookup(6, 0, 0, &gtab.ChainedSeqContext3{Input: []coverage.Set{all}, Actions: acts(1, 3, 5)}),
+		ssLookup(2, 0, 0, &gtab.Gsub2_1{Cov: coverage.Table{ssA: 0, ssB: 1, ssC: 2}, Repl: [][]glyph.ID{{ssA, ssB}, {ssB, ssM, ssC}, {ssC, ssA}}}),
+		ssLookup(4, fl, 0, &gtab.Gsub4_1{Cov: coverage.Table{ssA: 0, ssB: 1, ssC: 2}, Repl: [][]gtab.Ligature{
+			{{In: []glyph.ID{ssB}, Out: ssC}, {In: []glyph.ID{ssA}, Out: ssB}}, {{In: []glyph.ID{ssC}, Out: ssA}, {In: []glyph.ID{ssB}, Out: ssA}}, {{In: []glyph.ID{ssA}, Out: ssB}}}}),
+		ssLookup(1, 0, 0, &gtab.Gsub1_2{Cov: coverage.Table{ssA: 0, ssB: 1, ssC: 2, ssD: 3}, SubstituteGlyphIDs: []glyph.ID{ssB, ssC, ssD, ssA}}),
+	}
+	seq := []glyph.ID{}
+	for i, m := 0, r.Range(3, 8); i < m; i++ {
+		if fl != 0 && r.Chance(1, 3) {
+			seq = append(seq, ssM)
+		}
+		seq = append(seq, glyph.ID(Pick(r, []int{ssA, ssA, ssB, ssC})))
+	}
+	return &shpCase{ll: ll, gd: ssGdef(), lookups: []gtab.LookupIndex{0}, hist: [][]glyph.Info{ssText(seq)}}
+}
+
 // positioning: value records, pairs (both formats), mark-to-base, mark-to-mark on
 // base + marks clusters with advances.
 func (g *ssGen) positioning() *shpCase {
@@ -675,6 +719,8 @@ func areaShapeSpec(c *Ctx) {
 		case x < 14:
 			sc, origin = g.chained(), "chained context"
 		case x < 15:
+			sc, origin = g.deepNest(), "deep nesting"
+		case x < 16:
 			sc, origin = g.scenario(Pick(r, []int{0, 1, 4, 5})), "engine scenario"
 		default:
 			gd, gdNil := g.gdef()
